@@ -663,3 +663,71 @@ func parseTypeString(src string) (ty TypeExpr, err error) {
 	}
 	return ty, nil
 }
+
+// ESpecScope evaluates X with type names resolved in the package of a spec declaration.
+type ESpecScope struct {
+	Spec *SpecDecl
+	X    Expr
+}
+
+func (e *ESpecScope) String() string { return e.X.String() }
+
+// renameIdents renames free identifiers (shallow: bound variables of the same name inside
+// quantifiers/lets shadow as usual because they are renamed consistently too).
+func renameIdents(e Expr, ren map[string]string) Expr {
+	switch n := e.(type) {
+	case *EIdent:
+		if r, ok := ren[n.Name]; ok {
+			return &EIdent{r}
+		}
+		return n
+	case *EBin:
+		return &EBin{n.Op, renameIdents(n.L, ren), renameIdents(n.R, ren)}
+	case *EUn:
+		return &EUn{n.Op, renameIdents(n.X, ren)}
+	case *ESel:
+		return &ESel{renameIdents(n.X, ren), n.Name}
+	case *EIndex:
+		return &EIndex{renameIdents(n.X, ren), renameIdents(n.I, ren)}
+	case *ESlice:
+		var lo, hi Expr
+		if n.Lo != nil {
+			lo = renameIdents(n.Lo, ren)
+		}
+		if n.Hi != nil {
+			hi = renameIdents(n.Hi, ren)
+		}
+		return &ESlice{renameIdents(n.X, ren), lo, hi}
+	case *ECall:
+		var as []Expr
+		for _, a := range n.Args {
+			as = append(as, renameIdents(a, ren))
+		}
+		return &ECall{n.Fun, as}
+	case *ECond:
+		return &ECond{renameIdents(n.C, ren), renameIdents(n.A, ren), renameIdents(n.B, ren)}
+	case *EQuant:
+		inner := map[string]string{}
+		for k, v := range ren {
+			inner[k] = v
+		}
+		for _, v := range n.Vars {
+			delete(inner, v.Name)
+		}
+		return &EQuant{n.Forall, n.Vars, renameIdents(n.Body, inner)}
+	case *EOld:
+		return &EOld{renameIdents(n.X, ren)}
+	case *ELet:
+		inner := map[string]string{}
+		for k, v := range ren {
+			inner[k] = v
+		}
+		delete(inner, n.Name)
+		return &ELet{n.Name, renameIdents(n.Val, ren), renameIdents(n.Body, inner)}
+	case *ETypeAssert:
+		return &ETypeAssert{renameIdents(n.X, ren), n.Ty}
+	case *ESpecScope:
+		return &ESpecScope{n.Spec, renameIdents(n.X, ren)}
+	}
+	return e
+}
